@@ -177,14 +177,10 @@ theorem handleControls_frame (a : Acc) (func seq frameId : Nat) (hs : List ObjHd
           | none => some 2
           | some sel => matchOperate sel a.1.cfg.stimeout a.1.now seq frameId raw) = v at h
         split at h
-        · split at h
-          · cases h
-          · cases h
-            exact Frame.trans (w none _ none) (Frame.state _ _ _ _ rfl)
-        · split at h
-          · cases h
-          · cases h
-            exact Frame.trans (w (some .sbo) 0 _) (Frame.state _ _ _ _ rfl)
+        · cases h
+          exact Frame.trans (w none _ none) (Frame.state _ _ _ _ rfl)
+        · cases h
+          exact Frame.trans (w (some .sbo) 0 _) (Frame.state _ _ _ _ rfl)
       · split at h
         · cases h
           exact Frame.trans (w (some .dop) 0 _) (Frame.state _ _ _ _ rfl)
